@@ -2481,6 +2481,44 @@ impl<'a> Model<'a> {
         height: i32,
         value: &str,
     ) -> Result<(), String> {
+        // No cell of the block may belong to another array formula
+        for r in row..row + height {
+            for c in column..column + width {
+                if r == row && c == column {
+                    continue;
+                }
+                match self.get_cell_structure(sheet, r, c)? {
+                    CellStructure::SpillArray { anchor, .. } if anchor != (row, column) => {
+                        return Err(
+                            "Cannot write in a cell that is part of an array formula".to_string()
+                        );
+                    }
+                    CellStructure::ArrayFormula {
+                        range: (other_width, other_height),
+                    } if other_width > 1 || other_height > 1 => {
+                        return Err(
+                            "Cannot write in a cell that is part of an array formula".to_string()
+                        );
+                    }
+                    _ => {}
+                }
+            }
+        }
+        self.set_array_formula_unchecked(sheet, row, column, width, height, value)
+    }
+
+    // Sets the array formula without checking that the block is free of other array
+    // formulas: structural edits move a block onto cells that still hold its own old
+    // spill cells.
+    pub(crate) fn set_array_formula_unchecked(
+        &mut self,
+        sheet: u32,
+        row: i32,
+        column: i32,
+        width: i32,
+        height: i32,
+        value: &str,
+    ) -> Result<(), String> {
         self.prepare_cell_for_user_input(sheet, row, column)?;
         // If value starts with "'" then we force the style to be quote_prefix
         let style_index = self.get_cell_style_index(sheet, row, column)?;
